@@ -416,6 +416,7 @@ pub fn total_structured(o: &Opts, tr: &mut Tr, prop: &str, r: &mut StdRng) {
 pub fn scn_window(o: &Opts, tr: &mut Tr, prop: &str) {
     let mut r = gen::rng(o.seed, 808);
     bulk_decode(o, tr, prop, &mut gen::rng(o.seed, 8080), 2000, 20000);
+    total_structured(o, tr, prop, &mut gen::rng(o.seed, 8081));
     let srcs = sources(o, &mut r, true);
     for s in &srcs {
         let n = s.p.len();
